@@ -135,6 +135,8 @@ def apply_edit(src, e, read_aux):
     if 'replace' in e:
         n = src.count(e['replace'])
         want = e.get('count', 1)
+        if want is None:
+            want = n if n >= 1 else -1
         if n != want:
             raise EncodeError(f"replace: {e['replace']!r}: expected {want} occurrence(s), got {n}")
         return src.replace(e['replace'], e['with'])
